@@ -755,6 +755,7 @@ func engineB(c *core.Ctx) error {
 		}(j)
 	}
 	wg.Wait()
+	c.Extra("engineB_judge_note", "every record file starts with a neutral record and ends with a corrupted canary record; the first TLC pass over a file must reject the canary (ok=false in tlc_runs), the second pass judges the file without it")
 	c.Extra("engineB_requests", len(recs))
 	c.Extra("engineB_indexes", len(groups))
 	return firstErr
